@@ -439,6 +439,16 @@ func (ts *TermStore) Bin(op Op, a, b *Term) *Term {
 			return ts.Const(w, v)
 		}
 	}
+	// (zext(x) * c) / c == zext(x) and (zext(x) * c) % c == 0 when the product cannot overflow
+	if (op == OpSDiv || op == OpUDiv || op == OpSRem || op == OpURem) && b.isConst() && b.k > 0 && a.op == OpMul && a.b.isConst() && a.b.k == b.k && a.a.op == OpZExt {
+		xw := a.a.a.w
+		if xw < 63 && b.k < (uint64(1)<<(63-xw)) {
+			if op == OpSDiv || op == OpUDiv {
+				return a.a
+			}
+			return ts.Const(w, 0)
+		}
+	}
 	commut := op == OpAnd || op == OpOr || op == OpXor || op == OpAdd || op == OpMul
 	if commut && a.isConst() {
 		a, b = b, a
@@ -533,7 +543,7 @@ func (ts *TermStore) Bin(op Op, a, b *Term) *Term {
 			return r
 		}
 	}
-	if commut && a.id > b.id {
+	if commut && !b.isConst() && a.id > b.id {
 		a, b = b, a
 	}
 	return ts.mk(op, w, a, b, nil, 0, "")
